@@ -872,6 +872,58 @@ def _status_predicates(check, R):
     check.expect(ok, R, R + "/is_modified", hir.loc(tr.rec), "is_modified <=> status == Modified", "TransformResult::is_modified is not `status == Modified`")
 
 
+# targets of `+=` that exist in JavaScript source (the others are TypeScript-only wrappers, the error
+# node, and `a?.b += c`, which the parser refuses)
+JS_ASSIGN_TARGETS = ("Ident", "Member", "SuperProp", "Paren")
+
+
+def rule_assign_targets(check):
+    """ASSIGN-TARGETS: `x += v` is handed to the `+` transform for every kind of target JavaScript has"""
+    R = "ASSIGN-TARGETS"
+    check.rule(R, "to_dd_assign_expr reaches to_dd_binary_expr for every simple assignment target that exists in JavaScript (identifier, member, super property, parenthesised): no exit between the AssignTarget::Simple arm and that call can be taken for one of them")
+    prog = check.prog
+    from .. import boolform as BF
+
+    f = prog.fn("to_dd_assign_expr")
+    fs_ = prog.flat(f, 2)
+    order = {}
+    for g in fs_:
+        for i, n in enumerate(g.nodes()):
+            order[id(n)] = i
+    def _plus(n):
+        h = prog.resolve_local(n) if hir.is_call(n) else None
+        return h is not None and ((h.rec.get("self_ty") or "").split("<")[0].endswith("BinaryAddTransform") or (h.name or "").startswith("to_dd_binary"))
+
+    calls = [(g, n) for g in fs_ for n in g.nodes() if _plus(n)]
+    if not calls:
+        raise AnchorMissing("to_dd_assign_expr does not call the + transform (BinaryAddTransform)")
+    g0, call = calls[0]
+    vs = [v["name"] for v in prog.adt("swc_ecma_ast::SimpleAssignTarget")["variants"]]
+    pre = "is:swc_ecma_ast::SimpleAssignTarget::"
+    pre_t = "is:swc_ecma_ast::AssignTarget::"
+    exh = {pre: vs, pre_t: [v["name"] for v in prog.adt("swc_ecma_ast::AssignTarget")["variants"]]}
+    n_exits = 0
+    for n in g0.nodes():
+        is_exit = n.get("k") == "Ret" or (hir.is_call(n) and hir.callee_name(n) == "not_modified") or n.get("k") == "Try"
+        if not is_exit or g0 is not f or order[id(n)] > order[id(call)]:
+            continue
+        conds = [c for c in g0.conds_at(n) if c["t"] != "closure"]
+        fs = BF.from_conds(g0, conds, lambda fn_, e_: None, prog)
+        if BF.entails(fs, ("not", BF.atom(pre_t + "Simple")), exhaustive=exh):
+            continue  # the destructuring arm
+        n_exits += 1
+        reach = [v for v in JS_ASSIGN_TARGETS if v in vs and not BF.entails(fs, ("not", BF.atom(pre + v)), exhaustive=exh)]
+        k = "%s/exit-before-transform" % R
+        if reach:
+            check.bad(R, k, hir.loc(n), "to_dd_assign_expr leaves before the `+` transform when %s: `%s += v` (%s) is reported as not modified and stays uninstrumented" % ("; ".join(hir.cond_str(c) for c in conds) or "always", {"SuperProp": "super.x", "Ident": "x", "Member": "a.b", "Paren": "(x)"}[reach[0]], "/".join(reach)))
+        else:
+            check.ok(R, k, hir.loc(n), "exit only for targets that do not exist in JavaScript source")
+    cc = [c for c in g0.conds_at(call) if c["t"] != "closure"]
+    fs = BF.from_conds(g0, cc, lambda fn_, e_: None, prog)
+    unreached = [v for v in JS_ASSIGN_TARGETS if v in vs and BF.entails(fs, ("not", BF.atom(pre + v)), exhaustive=exh)]
+    check.expect(not unreached, R, R + "/call-reached", hir.loc(call), "to_dd_binary_expr is reached for %s (%d earlier exits, none for a JavaScript target)" % ("/".join(JS_ASSIGN_TARGETS), n_exits), "the `+` transform is not reached for %s targets of `+=` (under: %s)" % ("/".join(unreached), "; ".join(hir.cond_str(c) for c in cc)))
+
+
 def run(check):
     check.guarded("PREDICATES", rule_predicates)
     check.guarded("LITERAL-SKIP", rule_literal_skip)
@@ -885,6 +937,7 @@ def run(check):
     check.guarded("TRAV-COVER", lambda c: T.run_cover(c, "TRAV-COVER", OPV, {T.EXPR}, [T.excl_delete, T.excl_tpl_literal, T.excl_arrow], {"visit_mut_expr", "visit_mut_block_stmt"}, block_override_ok=block_ok))
     check.guarded("TRAV-COVER", lambda c: T.run_cover(c, "TRAV-COVER", BTV, {T.BLOCK}, [T.excl_cancelled], {"visit_mut_block_stmt"}))
     check.guarded("APPLY-ARGS", rule_apply_args)
+    check.guarded("ASSIGN-TARGETS", rule_assign_targets)
     check.guarded("TRAV-COVER", lambda c: T.run_cover(c, "TRAV-COVER", "OptChainVisitor", {T.EXPR}, [excl_optchain_lowered, excl_optchain_operands], {"visit_mut_expr"}))
     check.guarded("OPTCHAIN-SPINE", X.rule_optchain_spine)
     # a statement or an operand taken out of the tree before the visitors get to it is not instrumented
